@@ -13,3 +13,5 @@
 (declare-fun hblk (Int Int) Int)
 ;@ghost dwrote (Array Int Bool)
 ;@ghost ixoid (Array Int Int)
+;@ghost npers Int
+;@ghost nrec Int
